@@ -4,7 +4,7 @@
    come with the case as tables; canon and the "\n...\n" split are computed by the model
    and must reproduce the library's Bytes and bytes.Split. *)
 From Coq Require Import List String Ascii Bool.
-From Helm Require Import Common.Assoc Misc.Prov Misc.ProvTrust.
+From Helm Require Import Common.Assoc Misc.Prov Misc.ProvTrust Misc.ProvFiles.
 Import ListNotations.
 Local Open Scope string_scope.
 
@@ -81,12 +81,17 @@ Record scheck := mkSig {
   g_ctor_err : bool;                     (* observed: the constructor returned an error *)
   g_entity : option nat }.               (* observed: Signatory.Entity *)
 
+(* the file layer: state of the archive path and of the provenance path
+   (0 regular file, 1 missing, 2 directory, 3 opens but cannot be read) *)
+Record fcheck := mkFile { fc_chart : nat; fc_prov : nat; fc_chk : vcheck }.
+
 Record case := mkCase {
   k_tab : ptab; k_checks : list vcheck;          (* the signed pair and its archive / name / keyring mutants *)
   k_provs : list (option ptab * vcheck);         (* provenance-file mutants; None = same library results as k_tab *)
   k_dls : list (option ptab * dcheck);           (* None = the provenance file served has the library results of k_tab *)
   k_signs : list sgn;
-  k_sigs : list (option ptab * scheck) }.
+  k_sigs : list (option ptab * scheck);
+  k_files : list (option ptab * fcheck) }.
 
 Section Run.
   Variable tb : ptab.
@@ -190,6 +195,21 @@ Section Run.
         && opt_eqb (res_hash (signatory_verify sring nat unit unit r_decode s_check r_sha r_meta r_sums s "" (v_name v) (v_sha v))) (v_obs v)
     end.
 
+  (* file layer: the archive is represented by its digest, the provenance file by "" *)
+  Definition fstate_of (n : nat) (content : string) : fstate :=
+    match n with 0 => FFile content | 1 => FMissing | 2 => FDir | _ => FUnreadable end.
+
+  Definition fres_hash (v : fres unit) : option string :=
+    match v with FOk _ h => Some h | FErr _ => None end.
+
+  Definition file_check_ok (x : fcheck) : bool :=
+    let v := fc_chk x in
+    let ch := fstate_of (fc_chart x) (v_sha v) in
+    let pv := fstate_of (fc_prov x) "" in
+    opt_eqb (fres_hash (verify_files bool unit unit r_decode r_check r_sha r_meta r_sums (v_sig_ok v) ch pv (v_name v))) (v_obs v)
+    && opt_eqb (fres_hash (verify_chart_files bool unit unit r_decode r_check r_sha r_meta r_sums
+                             (if v_kr_loads v then Some (v_sig_ok v) else None) ch pv (v_name v))) (v_obs_vc v).
+
   (* the model's canon / split against the library's Bytes / bytes.Split *)
   Definition tab_ok : bool :=
     match t_decode tb with
@@ -221,7 +241,11 @@ Definition case_ok (c : case) : bool :=
   && forallb (fun x => match fst x with
                        | Some tb => tab_ok tb && sig_check_ok tb (snd x)
                        | None => sig_check_ok (k_tab c) (snd x)
-                       end) (k_sigs c).
+                       end) (k_sigs c)
+  && forallb (fun x => match fst x with
+                       | Some tb => tab_ok tb && file_check_ok tb (snd x)
+                       | None => file_check_ok (k_tab c) (snd x)
+                       end) (k_files c).
 
 Fixpoint mismatches_from (i : nat) (cs : list case) : list nat :=
   match cs with
